@@ -590,6 +590,16 @@ func init() {
 		fv.oblige(st, env, "S", "extern-requires", Le(IntLit(0), c.args[0]), c.call.Lparen, "strings.Builder.Grow: n >= 0 (negative count panics)")
 		return nil
 	})
+	reg("(github.com/octohelm/x/types.Type).String", "typesutil.Type.String(): the type spelled out by go/types / reflect - every named type inside it with its FULL package path, not through the file's namer. Precondition (the naming-system contract of C03/C11, checked at every call in a function under contract): the receiver is a named type or has no component types (kind not Array, Chan, Map, Pointer, Slice, Struct), so no package path can hide inside the text", func(fv *FuncVerifier, st *State, env *Env, c *CallCtx) []Term {
+		kind := fv.pureExt("(github.com/octohelm/x/types.Type).Kind", SInt, c.recv)
+		pkgPath := fv.pureExt("(github.com/octohelm/x/types.Type).PkgPath", "Seq_Int", c.recv)
+		var leaf []Term
+		for _, k := range []int64{17, 18, 21, 22, 23, 25} {
+			leaf = append(leaf, Not(App(SBool, "=", kind, IntLit(k))))
+		}
+		fv.oblige(st, env, "S", "extern-requires", Or(Not(App(SBool, "=", fv.w.SeqLen(pkgPath), IntLit(0))), And(leaf...)), c.call.Lparen, "typesutil.Type.String(): only for a named type or a type without component types (otherwise package paths inside it bypass the namer and the import table)")
+		return []Term{fv.pureExt("(github.com/octohelm/x/types.Type).String", "Seq_Int", c.recv)}
+	})
 	reg("(*bytes.Buffer).Grow", "bytes.Buffer.Grow(n) panics if n < 0 (requires n >= 0); no visible effect otherwise", func(fv *FuncVerifier, st *State, env *Env, c *CallCtx) []Term {
 		fv.oblige(st, env, "S", "extern-requires", Le(IntLit(0), c.args[0]), c.call.Lparen, "bytes.Buffer.Grow: n >= 0 (negative count panics)")
 		return nil
